@@ -226,6 +226,7 @@ func init() {
 	})
 	register("c03", genC03)
 	register("c13", genC13)
+	register("c09win", genC09Win)
 	register("c11", genC11)
 	register("c12", genC12)
 }
@@ -364,6 +365,15 @@ func genC03(o *Out, r *rand.Rand, thorough bool) {
 		emit([]string{"full-static", "nup-static", "full-quiet"}[r.Intn(3)], h.fen, h.moves, []string{fmt.Sprintf("s:%d:%s:0", h.d, fullWin)})
 		o.Count("history:horizon-draw")
 	}
+	// dead positions that arise BELOW the horizon, inside the capture search (an exchange down to king and minor piece, or to
+	// bare kings): worth 0 there as anywhere
+	for _, f := range []string{"4k3/8/8/8/8/8/3r4/2B1K3 w - - 0 1", "5rk1/8/8/8/8/8/8/1N3RK1 b - - 0 1", "4k3/8/8/8/8/2n5/3R4/4K3 b - - 0 1", "8/8/4k3/8/8/3bB3/8/4K3 w - - 0 1",
+		"4k3/3p4/8/8/8/8/3R4/4K3 w - - 0 1", "3qk3/8/8/8/8/8/8/3QK3 w - - 0 1"} {
+		for _, cfg := range []string{"full-quiet", "nup-quiet"} {
+			emit(cfg, f, nil, []string{"s:0:" + fullWin + ":0", "s:1:" + fullWin + ":0", "s:2:" + fullWin + ":0"})
+			o.Count("history:dead-position-below-horizon")
+		}
+	}
 	emit("full-static", "r3k2r/8/8/8/8/8/8/R3K2R w KQkq - 98 60", []string{"m:e1g1"}, []string{"s:2:" + fullWin + ":0"})
 	emit("full-static", "4k3/8/8/8/8/8/4p3/R3K3 w Q - 99 60", nil, []string{"s:3:" + fullWin + ":0"})
 	for i := 0; i < n; i++ {
@@ -450,6 +460,40 @@ func randomBound(r *rand.Rand) string {
 	}
 }
 
+// genC09Win: searches under one-sided windows (one bound of the search context set, the other left at its zero value): what
+// comes back is a score of the order - the value of the position clipped to the window - never the "not set" marker.
+func genC09Win(o *Out, r *rand.Rand, thorough bool) {
+	n := 30
+	if thorough {
+		n = 600
+	}
+	o.do(ztableLine(0))
+	for i := 0; i < n; i++ {
+		start, moves, b := randomLine(r, 12)
+		cfg := pickCfg(r, b)
+		d := pickDepth(r, b, false, strings.HasSuffix(cfg, "quiet"))
+		if d > 2 {
+			d = 2
+		}
+		var items []string
+		for k := 0; k < 4; k++ {
+			bd := randomBound(r)
+			for (k%2 == 0 && bd[:1] == "I") || (k%2 == 1 && bd[:1] == "N") {
+				bd = randomBound(r)
+			}
+			if k%2 == 0 {
+				items = append(items, fmt.Sprintf("s:%d:%s:X:0:0:0", d, bd))
+			} else {
+				items = append(items, fmt.Sprintf("s:%d:X:0:0:%s:0", d, bd))
+			}
+		}
+		line := fmt.Sprintf("search 0 %s 0 0 %s ; %s", cfg, start, strings.Join(append(moves, items...), " "))
+		o.do(line)
+		o.Count("one-sided-window:" + cfg)
+		o.Nontrivial(line)
+	}
+}
+
 func genC13(o *Out, r *rand.Rand, thorough bool) {
 	n := 200
 	if thorough {
@@ -500,6 +544,21 @@ func genC13(o *Out, r *rand.Rand, thorough bool) {
 			}
 			items = append(items, fmt.Sprintf("s:%d:%s:%s:0", d, a, bnd))
 			o.Count("window:" + a[:1] + bnd[:1])
+		}
+		// one-sided windows: only one bound is set in the search context, the other one is left at its zero value ("not set",
+		// i.e. unbounded on that side)
+		for k := 0; k < 2; k++ {
+			bd := randomBound(r)
+			for (k == 0 && bd[:1] == "I") || (k == 1 && bd[:1] == "N") { // an empty window is not a window
+				bd = randomBound(r)
+			}
+			if k == 0 {
+				items = append(items, fmt.Sprintf("s:%d:%s:X:0:0:0", d, bd))
+				o.Count("window:" + bd[:1] + "-unset")
+			} else {
+				items = append(items, fmt.Sprintf("s:%d:X:0:0:%s:0", d, bd))
+				o.Count("window:unset-" + bd[:1])
+			}
 		}
 		line := fmt.Sprintf("search 0 %s 0 0 %s ; %s", cfg, start, strings.Join(append(moves, items...), " "))
 		o.do(line)
@@ -672,6 +731,14 @@ func genC12(o *Out, r *rand.Rand, thorough bool) {
 		n = 150
 	}
 	o.do(ztableLine(0))
+	// "can be halted at any moment": a Halt that arrives while the first iteration of the iterative harness is still running
+	// waits for it and returns a completed depth-1 result (it must not wait for ever)
+	for i := 0; i < 4; i++ {
+		line := fmt.Sprintf("iterhalt %d %s", []int{1, 2, 3, 1 + r.Intn(30)}[i], corpus[r.Intn(len(corpus))])
+		o.do(line)
+		o.Count("iterhalt")
+		o.Nontrivial(line)
+	}
 	sizes := []int{0, 64, 1 << 12, 1 << 20}
 	// roots at which a draw can be claimed (third occurrence, clock at 100): halting must hand the board
 	// back with that result intact
@@ -756,6 +823,14 @@ func genC12(o *Out, r *rand.Rand, thorough bool) {
 			items := []string{fmt.Sprintf("s:%d:%s:%d", d, fullWin, k), fmt.Sprintf("s:%d:%s:0", d, fullWin)}
 			if r.Intn(3) == 0 {
 				items = append([]string{fmt.Sprintf("s:%d:%s:0", maxInt(1, d-1), fullWin)}, items...)
+			}
+			if d > 1 && r.Intn(2) == 0 {
+				// ... or a SHALLOWER search follows the halted one (what the halted deeper search stored must not answer it)
+				items[len(items)-1] = fmt.Sprintf("s:%d:%s:0", 1+r.Intn(d-1), fullWin)
+				if r.Intn(2) == 0 {
+					items = append(items, fmt.Sprintf("s:%d:%s:0", d, fullWin))
+				}
+				o.Count("cancel-then-shallower")
 			}
 			line := fmt.Sprintf("search 0 %s %d 0 %s ; %s", cfg, size, start, strings.Join(append(append([]string{}, moves...), items...), " "))
 			o.do(line)
